@@ -57,6 +57,11 @@ def build_cases(t, palette, pairs, seed):
         ab = clash.multi_abstract(rng, palette)
         lib_cases.append({"id": f"multi-{seed}-{k}", "kind": "pal", "st": clash.materialise(ab, k), "opts": ALL32,
                           "src": {"ab": ab, "shuffle": k}})
+    # ---- crowds: twenty atoms within about 2 A (more neighbours inside the search radius than real structures have)
+    for k in range(3):
+        ab = clash.crowd_abstract(rng, palette)
+        lib_cases.append({"id": f"crowd-{seed}-{k}", "kind": "pal", "st": clash.materialise(ab, k), "opts": ALL32,
+                          "src": {"ab": ab, "shuffle": k}})
     # ---- corpus windows, squashed / jittered
     sources = clash.corpus_sources(rng, t["geo"][0], t["geo"][1])
     for k, src in enumerate(sources):
